@@ -17,8 +17,10 @@ namespace {
 
 enum { RD_MAX = 0, RD_NL = 1 };
 
+/* includes names that are proper prefixes of other names (zone handles are cached by name) */
 const char *const zones[] = {"Europe/Berlin", "America/New_York", "Asia/Gaza", "Australia/Lord_Howe", "Asia/Tokyo",
-			     "Asia/Kathmandu", "Africa/Casablanca", "America/St_Johns", "Pacific/Apia", "UTC"};
+			     "Asia/Kathmandu", "Africa/Casablanca", "America/St_Johns", "Pacific/Apia", "UTC",
+			     "EST", "EST5EDT", "MST", "MST7MDT", "NZ", "NZ-CHAT", "Etc/GMT-1", "Etc/GMT-10", "Etc/GMT-14", "GMT", "GMT0"};
 
 struct Cfg {
 	const char *tool;
@@ -109,7 +111,9 @@ std::string rand_value(Rng &r)
 std::string rand_dur(Rng &r)
 {
 	static const char *du[] = {"+1d", "-1d", "+1mo", "-1mo", "+1y", "-3w", "+2d", "+12h", "-90m", "+3600s", "1d", "xx", "", "+1mo1d",
-				   "-1y2mo", "/1d", "+5bd", "-2bd", "+100d", "1w", "--1d", "+0d"};
+				   "-1y2mo", "/1d", "+5bd", "-2bd", "+100d", "1w", "--1d", "+0d",
+				   /* lines that start like durations and then fail */
+				   "1d xyz", "2h 30 minutes", "+1mo +x", "1d 2", "3w 1d", "+1d -1d", "1y 2mo 3d junk"};
 	return du[r.below(sizeof(du) / sizeof(*du))];
 }
 std::string rand_text_line(Rng &r)
